@@ -1189,8 +1189,8 @@ fn timed_from(fam: &str, ctor: &str, ms: u64) -> String {
         let _ = std::fs::remove_file(p);
     }
     let fd = match &stream {
-        AnyS::U(s) => s.as_raw_fd(),
-        AnyS::T(s) => s.as_raw_fd(),
+        AnyS::U(s) => s.as_raw_fd().value(),
+        AnyS::T(s) => s.as_raw_fd().value(),
     };
     let fl = unsafe { sys::fcntl(fd, 3) };
     let nonblock = (fl >= 0 && fl & 0o4000 != 0) as u8;
@@ -1201,7 +1201,7 @@ fn timed_from(fam: &str, ctor: &str, ms: u64) -> String {
             Err(e) => show_err(&e),
         }),
         AnyS::U(u) => polls_in(|| {
-            let n = unsafe { sys::read(u.as_raw_fd(), buf.as_mut_ptr(), buf.len()) };
+            let n = unsafe { sys::read(u.as_raw_fd().value(), buf.as_mut_ptr(), buf.len()) };
             if n >= 0 {
                 format!("read {}", n)
             } else {
